@@ -290,6 +290,16 @@ func replayAux(emit func(M), scratch, nfpmBin, repo string) int {
 	return n
 }
 
+// parseText: the reader entry point on a literal text, a panic reported as an error
+func parseText(text string) (cfg nfpm.Config, err error) {
+	defer func() {
+		if r := recover(); r != nil {
+			err = fmt.Errorf("PANIC in the parser: %v", r)
+		}
+	}()
+	return nfpm.ParseWithEnvMapping(strings.NewReader(text), func(string) string { return "" })
+}
+
 func famSchema(tr *Trace, scratch string, seed int64, tier string, repo, nfpmBin string) M {
 	id := 0
 	emit := func(ev M) {
@@ -477,6 +487,42 @@ func famSchema(tr *Trace, scratch string, seed int64, tier string, repo, nfpmBin
 			sd.validate(root, toJSONable(d), "$", &errs)
 			emit(M{"ev": "strictprobe", "path": strings.ReplaceAll(strings.Join(segs, "."), "<fmt>", "deb"), "schema_valid": len(errs) == 0,
 				"accepted_reader": rerr == nil, "accepted_file": ferr == nil, "accepted_cli": cerr == nil})
+			// the same question for a document written as JSON, and for the key in another letter case (key paths are case sensitive
+			// in the schema): the last key of the path in capitals / capitalised, everything else a valid document
+			for _, variant := range []string{last + "_unknown", strings.ToUpper(last), strings.ToUpper(last[:1]) + last[1:]} {
+				if variant == last {
+					continue
+				}
+				segs2 := append(append([]string{}, k.Segs[:len(k.Segs)-1]...), variant)
+				d2 := base()
+				var val any = sampleValue(k, 1)
+				if variant == last+"_unknown" || k.Kind == "struct" {
+					val = "x"
+				}
+				setPath(d2, segs2, val, "deb")
+				js, jerr := json.Marshal(toJSONable(d2))
+				if jerr != nil {
+					continue
+				}
+				_, rerr2 := parseText(string(js))
+				fj := filepath.Join(fdir, "probe.json")
+				must(os.WriteFile(fj, js, 0o644))
+				_, ferr2 := func() (c nfpm.Config, err error) {
+					defer func() {
+						if r := recover(); r != nil {
+							err = fmt.Errorf("PANIC in the parser: %v", r)
+						}
+					}()
+					return nfpm.ParseFileWithEnvMapping(fj, func(string) string { return "" })
+				}()
+				var errs2 []string
+				sd.validate(root, toJSONable(d2), "$", &errs2)
+				if len(errs2) == 0 && variant != last+"_unknown" {
+					continue // (the schema takes any key here, e.g. below a map: no question to ask)
+				}
+				emit(M{"ev": "strictprobe", "path": strings.ReplaceAll(strings.Join(segs2, "."), "<fmt>", "deb") + " (json)", "schema_valid": len(errs2) == 0,
+					"accepted_reader": rerr2 == nil, "accepted_file": ferr2 == nil, "accepted_cli": false})
+			}
 		}
 	}
 	// every signer role either method knows, tried with both methods (debsign refuses "builder": no obligation then)
@@ -535,7 +581,58 @@ func famSchema(tr *Trace, scratch string, seed int64, tier string, repo, nfpmBin
 			es = safeStr(strings.Join(errs, "; "))
 		}
 		emit(M{"ev": "leafprobe", "path": strings.ReplaceAll(k.String(), "<fmt>", "deb"), "parser_accepts": perr == nil, "schema_valid": len(errs) == 0, "schema_err": es})
+		// ... the same document in the notation of the schema itself (JSON is YAML: one parser, one answer)
+		if js, jerr := json.Marshal(toJSONable(d)); jerr == nil {
+			_, perr2 := parseText(string(js))
+			emit(M{"ev": "leafprobe", "path": strings.ReplaceAll(k.String(), "<fmt>", "deb") + " (json)", "parser_accepts": perr2 == nil, "schema_valid": len(errs) == 0, "schema_err": es})
+		}
 	}
+	// numbers where the schema allows a number or a string (epoch, release), written as JSON
+	for _, key := range []string{"epoch", "release"} {
+		for _, v := range []any{3, "3"} {
+			d := base()
+			d[key] = v
+			js, _ := json.Marshal(toJSONable(d))
+			_, perr := parseText(string(js))
+			var errs []string
+			sd.validate(root, toJSONable(d), "$", &errs)
+			emit(M{"ev": "leafprobe", "path": fmt.Sprintf("%s=%#v (json)", key, v), "parser_accepts": perr == nil, "schema_valid": len(errs) == 0, "schema_err": safeStr(strings.Join(errs, "; "))})
+		}
+	}
+	// a value of another shape than the schema gives the setting (a quoted number, a quoted truth value): if the parser takes
+	// it and the packagers build it, the schema has to allow it
+	cross = true
+	for _, sh := range []struct {
+		name string
+		set  func(d map[string]any)
+	}{
+		{"contents[].file_info.mode=\"0640\"", func(d map[string]any) {
+			d["contents"] = []any{map[string]any{"src": root0 + "/src/bin", "dst": "/usr/bin/probe", "file_info": map[string]any{"mode": "0640"}}}
+		}},
+		{"contents[].file_info.mode=\"755\"", func(d map[string]any) {
+			d["contents"] = []any{map[string]any{"src": root0 + "/src/bin", "dst": "/usr/bin/probe", "file_info": map[string]any{"mode": "755"}}}
+		}},
+		{"overrides.rpm.contents[].file_info.mode=\"0640\"", func(d map[string]any) {
+			d["overrides"] = map[string]any{"rpm": map[string]any{"contents": []any{map[string]any{"src": root0 + "/src/bin", "dst": "/usr/bin/probe", "file_info": map[string]any{"mode": "0640"}}}}}
+		}},
+		{"umask=\"027\"", func(d map[string]any) { d["umask"] = "027" }},
+		{"contents[].expand=\"true\"", func(d map[string]any) {
+			d["contents"] = []any{map[string]any{"src": root0 + "/src/bin", "dst": "/usr/bin/probe", "expand": "true"}}
+		}},
+		{"disable_globbing=\"true\"", func(d map[string]any) { d["disable_globbing"] = "true" }},
+		{"ipk.alternatives[].priority=\"100\"", func(d map[string]any) {
+			d["ipk"] = map[string]any{"alternatives": []any{map[string]any{"priority": "100", "target": "/t", "link_name": "/l"}}}
+		}},
+		{"depends=\"one\"", func(d map[string]any) { d["depends"] = "one" }},
+		{"contents[].file_info.mtime=\"2020-01-01\"", func(d map[string]any) {
+			d["contents"] = []any{map[string]any{"src": root0 + "/src/bin", "dst": "/usr/bin/probe", "file_info": map[string]any{"mtime": "2020-01-01"}}}
+		}},
+	} {
+		d := base()
+		sh.set(d)
+		probe("value-shape", sh.name, d, allFormats)
+	}
+	cross = false
 
 	// file modes: plain, and with setuid / setgid / sticky bits (decimal in JSON)
 	for _, mode := range []string{"0o644", "0o755", "0o4755", "0o2755", "0o1777", "0o7777"} {
